@@ -96,8 +96,12 @@ def rule_ok(c, k):
 
 def run(ctx):
     if getattr(ctx, "replay", None):
+        if "c02-crosstype " in open(ctx.replay).read():
+            from .. import crosstype
+            return crosstype.replay(ctx, ctx.replay)
         return ctx.replay_script(ctx.replay)
     failed = ctx.lean_stage(modules_for("C02"))
+    ctx.run_regressions()
     quick = ctx.tier == "quick"
     nrand = 20000 if quick else 400000
     rng = ctx.rng
@@ -200,6 +204,7 @@ def run(ctx):
                                   % (mv, cl.name(), cb.name(), cl.inputs[k], bl.hex(), bb.hex(), cl.single(k).script(), cb.single(k).script()))
                     break
         ctx.notes["byte_order_pairs_compared/" + mv] = npairs
+    found = _crosstype(ctx) or found
     ctx.sample({"campaign": camps[0].name(), "n_inputs": len(camps[0].inputs), "first_inputs": ["%x" % (v & 0xFFFF) for v in camps[0].inputs[:4]]})
     ctx.sample({"campaign": camps[-1].name(), "n_inputs": len(camps[-1].inputs)})
     if failed and not found:
@@ -210,6 +215,37 @@ def run(ctx):
                             "norm/clip/scale flags; 8- and 16-bit domains exhaustive; 24/32-bit and floating inputs = boundary dictionary (±1, ±(1-ulp), halves for every width, "
                             "extremes) + seeded random bit patterns; thorough tier repeats everything on the lrint (-U__SSE2__) build. distinct_nontrivial = distinct "
                             "(direction, encoding, caller type, flags, build) streams run")
+
+
+def _crosstype(ctx):
+    """C02 for every codec and for type switching (vlib/crosstype.py; Sf.CrossType decides)"""
+    from .. import crosstype
+    jobs, verdicts, stats, wall = crosstype.run(ctx)
+    nbad = crosstype.report(ctx, jobs, verdicts)
+    okv = [v for v in verdicts.values() if v.startswith("ok")]
+    for v in okv:
+        kv = dict(t.split("=") for t in v.split()[1:])
+        stats["W_records"] += int(kv["W"])
+        stats["R_items"] += int(kv["R"])
+        stats["S_calls"] += int(kv["S"])
+    stats["judged"] = len(verdicts)
+    stats["accepted"] = len(okv)
+    stats["formats"] = len({j.fmt.word for j in jobs if j.ok})
+    stats["wall_s"] = round(wall, 1)
+    ctx.count(stats["R_items"] + stats["S_calls"] + stats["W_records"])
+    for j in jobs:
+        if j.ok:
+            ctx.distinct.add("crosstype:%s" % j.fmt.name)
+    ctx.coverage["traces_validated_against_impl"] += len(okv)
+    ctx.notes["crosstype"] = stats
+    ctx.notes["crosstype_rule"] = ("every writable (major, subtype, endian) except SD2: twin files int vs short (narrowing, sample <= 16 bits; G.711 by magnitude), short vs int << 16, "
+                                   "float / double vs Sf.CrossType.floatTwin; the four sequential reference streams item by item, normalisation on and off; two seeded "
+                                   "type-switching read plans per file (seeks where the handle seeks). Sf.CrossType (`sfmodel crosstype`) decides every record.")
+    if jobs:
+        j = jobs[len(jobs) // 2]
+        ctx.sample({"crosstype_job": j.name, "ints": len(j.xs), "first_ints": ["%08x" % (x & 0xFFFFFFFF) for x in j.xs[:4]],
+                    "verdict": verdicts.get(j.name + "/on", "")[:80]})
+    return nbad > 0
 
 
 def _small(enc, code):
